@@ -26,9 +26,9 @@ let decode_obs (s : n list) : string =
   | Ok (((pos, turn), np), fm) ->
     let enc = encode pos turn np fm in
     let again = (match decode enc with
-        | Ok (((p2, t2), n2), f2) -> pos_eqb p2 pos && int_of_n t2 = int_of_n turn && int_of_z n2 = int_of_z np && int_of_z f2 = int_of_z fm
+        | Ok (((p2, t2), n2), f2) -> pos_eqb p2 pos && int_of_n t2 = int_of_n turn && n2 = np && f2 = fm
         | _ -> false) in
-    Printf.sprintf "OK %s %d %d %d %s %s" (pos_str pos) (int_of_n turn) (int_of_z np) (int_of_z fm) (codes_of_str enc) (if again then "1" else "0")
+    Printf.sprintf "OK %s %d %s %s %s %s" (pos_str pos) (int_of_n turn) (dec_of_z np) (dec_of_z fm) (codes_of_str enc) (if again then "1" else "0")
 
 let norm_decode_obs (o : string) : string =
   match ws o with
@@ -42,7 +42,7 @@ let handle_fenrt line args obs =
     let t = n_of_int (int_of_string turn) in
     (match split_str " | " obs with
      | [enc; dobs] ->
-       let menc = encode p t (z_of_int (int_of_string np)) (z_of_int (int_of_string fm)) in
+       let menc = encode p t (z_of_dec np) (z_of_dec fm) in
        if codes_of_str menc <> String.trim enc then report_mismatch line ("encode: " ^ codes_of_str menc);
        let md = decode_obs (str_of_codes (String.trim enc)) in
        if md <> norm_decode_obs dobs then report_mismatch line ("decode: " ^ md);
@@ -72,7 +72,7 @@ let handle_decode line args obs =
      | ["CRASH"] -> report_spec ~key:"prop=C19" line "decoding crashed"
      | ["NIL"] -> report_spec ~key:"prop=C19" line "decoding returned neither an error nor a position"
      | "OK" :: p :: t :: np :: fm :: _ :: again :: _ ->
-       let d = (((parse_pos p, n_of_int (int_of_string t)), z_of_int (int_of_string np)), z_of_int (int_of_string fm)) in
+       let d = (((parse_pos p, n_of_int (int_of_string t)), z_of_dec np), z_of_dec fm) in
        if not (wf_value d) then report_spec ~key:"prop=C19" line "accepted FEN decodes to a value that is not well formed"
        else if again <> "1" then report_spec ~key:"prop=C19" line "accepted FEN re-encodes to a FEN that decodes differently"
      | _ -> ())
@@ -151,8 +151,8 @@ let fen_matches_game (fen : n list) (g : gstate) : string option =
   | Ok (((p, t), np), fm) ->
     if not (spos_eqb (abs_pos p) g.g_pos) then Some "position"
     else if color_of t <> g.g_turn then Some "side to move"
-    else if int_of_z np <> int_of_z g.g_clock then Some (Printf.sprintf "half-move clock %d, expected %d" (int_of_z np) (int_of_z g.g_clock))
-    else if int_of_z fm <> int_of_z g.g_fullmove then Some (Printf.sprintf "full-move number %d, expected %d" (int_of_z fm) (int_of_z g.g_fullmove))
+    else if np <> g.g_clock then Some (Printf.sprintf "half-move clock %s, expected %s" (dec_of_z np) (dec_of_z g.g_clock))
+    else if fm <> g.g_fullmove then Some (Printf.sprintf "full-move number %s, expected %s" (dec_of_z fm) (dec_of_z g.g_fullmove))
     else None
   | _ -> Some "reported FEN does not decode"
 
@@ -235,9 +235,9 @@ let handle_ucipos line args obs =
       let obs_of s =
         let e = s.d_eng in
         let h = e.e_heap and b = e.e_board in
-        Printf.sprintf "ALIVE %s %d %d %d %d %d %d" (codes_of_str (eng_position e)) (int_of_z b.b_ply)
+        Printf.sprintf "ALIVE %s %d %d %d %d %s %s" (codes_of_str (eng_position e)) (int_of_z b.b_ply)
           (int_of_z (rep_get b.b_reps (b_hash h b))) (int_of_n b.b_result.outcome) (Dispatch2.reason_code b.b_result.rreason)
-          (int_of_n (b_noprogress h b)) (int_of_z b.b_moves) in
+          (dec_of_n (b_noprogress h b)) (dec_of_z b.b_moves) in
       let m = (match !st with
           | None -> "EXIT"
           | Some s -> obs_of s) in
